@@ -152,18 +152,14 @@ Definition aliased_negated_literal (v : lit) (alias : list N) : option (res rose
   | _ => None
   end.
 
-(* a nested query: its lines at depth 0, read back as one tree.  A "(children 0)" line cannot be
-   represented ([render] prints a leaf without suffix, parse_lines identifies the two spellings),
-   so it is refused here. *)
-Definition has_zero_count (l : line) : bool :=
-  match nkids l with Some O => true | _ => false end.
-
+(* a nested query: its lines at depth 0, read back as one tree ([render] prints a leaf without
+   suffix and parse_lines identifies "(children 0)" with it: a nested empty list would lose its
+   "(children 0)"; [printable_query true] excludes it) *)
 Definition tree_of_lines (ls : list line) : res rose :=
-  if existsb has_zero_count ls then OutOfFragment OofNotATree
-  else match parse_lines ls with
-       | Some t => Ok t
-       | None => OutOfFragment OofNotATree
-       end.
+  match parse_lines ls with
+  | Some t => Ok t
+  | None => OutOfFragment OofNotATree
+  end.
 
 Definition empty_sq : select_query :=
   mkSQ [] [] None [] None None None None [] false false None None 0 [] [] None [] None None None 0
